@@ -14,7 +14,7 @@ import (
 
 // C08 — Markdown output keeps GFM table structure and neutralises cell content.
 
-var c08Atoms = []string{`|`, `\`, `\|`, `a|b`, "a\nb", `<b>`, `&`, `&amp;`, `&#x7c;`, `"`, `'`, " x ", "ｗ", "", `a\`, "&x;", "\n", "*_`[]()"}
+var c08Atoms = []string{`|`, `\`, `\|`, `a|b`, "a\nb", `<b>`, `&`, `&amp;`, `&#x7c;`, `"`, `'`, " x ", "ｗ", "", `a\`, "&x;", "\n", "*_`[]()", "\xff", "a\xc3"}
 
 func init() {
 	register(&Check{
